@@ -345,8 +345,38 @@ package algo
 // debugV2 only prints; it is reachable only with the package variable DEBUG set, which no code in fzf does.
 //@ func debugV2 trusted
 
+// One cell of the score matrix (phase 3), as the scoring model has it.  hl / hd: the scores to the left and diagonally
+// above-left, gap: the left cell was reached by a gap, cd: length of the run of consecutive matches ending diagonally,
+// b: the position's own bonus, fb: the bonus of the first character of that run, m: the characters match.
+//   gap move:   s2 = hl - 1 if the left cell was a gap already, hl - 3 to open one;
+//   match move: s1 = hd + 16 + bonus, where inside a run (cd >= 1) the bonus is max(b, 4, fb) unless b is a boundary
+//               bonus greater than fb, which starts a new run; if even so the gap move is better, the match takes only
+//               its own bonus and the run ends;
+//   the cell holds max(s1, s2, 0), and it counts as a gap cell only if s1 < s2 (a tie is a match).
+//@ spec func v2s2(hl int, gap int) int = hl + (gap != 0 ? -1 : -3)
+//@ spec func v2brk(cd int, b int, fb int) bool = cd >= 1 && b >= 8 && b > fb
+//@ spec func v2be(cd int, b int, fb int) int = (cd >= 1 && !v2brk(cd, b, fb)) ? max(b, max(4, fb)) : b
+//@ spec func v2low(hl int, gap int, hd int, cd int, b int, fb int) bool = hd + 16 + v2be(cd, b, fb) < v2s2(hl, gap)
+//@ spec func v2s1(hl int, gap int, hd int, cd int, b int, fb int, m int) int = m == 0 ? 0 : (v2low(hl, gap, hd, cd, b, fb) ? hd + 16 + b : hd + 16 + v2be(cd, b, fb))
+//@ spec func v2c(hl int, gap int, hd int, cd int, b int, fb int, m int) int = m == 0 ? 0 : (v2low(hl, gap, hd, cd, b, fb) ? 0 : (v2brk(cd, b, fb) ? 1 : cd + 1))
+//@ spec func v2h(hl int, gap int, hd int, cd int, b int, fb int, m int) int = max(max(v2s1(hl, gap, hd, cd, b, fb, m), v2s2(hl, gap)), 0)
 //@ func FuzzyMatchV2
 //@ property C02 C03 C05 C01
+// (ghosts: the inputs of the cell computed last, taken when its iteration starts)
+//@ ghost gHl int
+//@ ghost gGap int
+//@ ghost gHd int
+//@ ghost gCd int
+//@ ghost gB int
+//@ ghost gFb int
+//@ ghost gM int
+//@ ghost @"col := off + f" gHl = Hleft[off]
+//@ ghost @"col := off + f" gGap = (inGap ? 1 : 0)
+//@ ghost @"col := off + f" gHd = Hdiag[off]
+//@ ghost @"col := off + f" gCd = Cdiag[off]
+//@ ghost @"col := off + f" gB = Bsub[off]
+//@ ghost @"col := off + f" gFb = B[off + f - Cdiag[off]]
+//@ ghost @"col := off + f" gM = (pchar == char ? 1 : 0)
 //@ assert @"bonus := bonusMatrix[prevClass][class]" char == foldc(caseSensitive, normalize, at(input, minIdx + off)) && T[off] == char
 //@ requires !DEBUG
 // (two products stated once, so that the slice bounds of the row views below are linear facts)
@@ -395,6 +425,7 @@ package algo
 //@   invariant forall(k, 0, iter + 1, 0 <= Hleft[k] && Hleft[k] <= 26 * pidx + 36)
 //@   invariant forall(k, 0, iter, 0 <= Csub[k] && Csub[k] <= pidx + 1 && Csub[k] <= f - f0 + k + 1)
 //@   invariant 0 <= maxScore && maxScore <= 26 * pidx + 36 && 0 <= maxScorePos && maxScorePos <= lastIdx
+//@   invariant iter > 0 ==> Hsub[iter-1] == v2h(gHl, gGap, gHd, gCd, gB, gFb, gM) && Csub[iter-1] == v2c(gHl, gGap, gHd, gCd, gB, gFb, gM) && inGap == (v2s1(gHl, gGap, gHd, gCd, gB, gFb, gM) < v2s2(gHl, gGap))
 
 // NormalizeRunes returns a fresh copy of the same length (accent folding through the normalized table).
 //@ func NormalizeRunes
